@@ -308,13 +308,11 @@ pub fn c18(d: &Digest, s: usize, out: &mut Vec<Violation>) {
     if sd.model.hole_reducers {
         return;
     }
-    // was the shutdown marker received?  Not if DropLatest found the queue full at close.
+    // was the shutdown marker received?  Not if DropLatest found the queue full at close.  The
+    // marker is the last thing anybody offers to the dispatch queue (whichever thread offers it).
+    let last_offer = d.ev.iter().rposition(|e| matches!(&e.k, K::ChSend { chan, .. } | K::ChFull { chan } if *chan == dch));
     let exit_dropped = sd.model.policy == Policy::DropLatest
-        && sd.shutdowns.iter().any(|&ci| {
-            let c = &d.calls[ci];
-            let end = c.ret.unwrap_or(d.ev.len());
-            d.ev[c.inv..end].iter().any(|e| e.tid == c.tid && matches!(&e.k, K::ChFull { chan } if *chan == dch))
-        });
+        && last_offer.map(|i| matches!(&d.ev[i].k, K::ChFull { .. }) && i >= sd.first_shutdown_inv.unwrap_or(usize::MAX)).unwrap_or(false);
     let x = if exit_dropped { 0 } else { 1 };
     let fs = sd.first_shutdown_inv.unwrap_or(usize::MAX);
     let n_open = sd.dispatches.iter().filter(|&&c| d.calls[c].ret_or_max() < fs).count();
